@@ -367,6 +367,13 @@ func (p *Prog) solve(pr *prepared, cfg SolveConfig) *Outcome {
 				f0, _ := p.gen(pr, levels[0])
 				wg.Add(1)
 				go func() { defer wg.Done(); run("z3-new", f0, "z3-new/L0-full", cfg.Timeout) }()
+				if len(levels) > 2 {
+					// likewise the first instantiation round (the instances of loop invariants at the
+					// goal's own terms): small, but large structs make it slower than the short budget
+					f1, _ := p.gen(pr, levels[1])
+					wg.Add(1)
+					go func() { defer wg.Done(); run("z3-new", f1, "z3-new/L1-full", cfg.Timeout) }()
+				}
 			}
 		}
 		if pr.hasQ {
